@@ -37,13 +37,6 @@ type comparison =
 | Lt
 | Gt
 
-(** val compOpp : comparison -> comparison **)
-
-let compOpp = function
-| Eq -> Eq
-| Lt -> Gt
-| Gt -> Lt
-
 module Coq__1 = struct
  (** val add : nat -> nat -> nat **)
  let rec add n0 m =
@@ -71,17 +64,6 @@ let rec sub n0 m =
 
 module Nat =
  struct
-  (** val eqb : nat -> nat -> bool **)
-
-  let rec eqb n0 m =
-    match n0 with
-    | O -> (match m with
-            | O -> true
-            | S _ -> false)
-    | S n' -> (match m with
-               | O -> false
-               | S m' -> eqb n' m')
-
   (** val leb : nat -> nat -> bool **)
 
   let rec leb n0 m =
@@ -95,15 +77,6 @@ module Nat =
 
   let ltb n0 m =
     leb (S n0) m
-
-  (** val max : nat -> nat -> nat **)
-
-  let rec max n0 m =
-    match n0 with
-    | O -> m
-    | S n' -> (match m with
-               | O -> n0
-               | S m' -> S (max n' m'))
  end
 
 (** val nth : nat -> 'a1 list -> 'a1 -> 'a1 **)
@@ -116,18 +89,6 @@ let rec nth n0 l default =
   | S m -> (match l with
             | [] -> default
             | _ :: t -> nth m t default)
-
-(** val rev : 'a1 list -> 'a1 list **)
-
-let rec rev = function
-| [] -> []
-| x :: l' -> app (rev l') (x :: [])
-
-(** val concat : 'a1 list list -> 'a1 list **)
-
-let rec concat = function
-| [] -> []
-| x :: l0 -> app x (concat l0)
 
 (** val map : ('a1 -> 'a2) -> 'a1 list -> 'a2 list **)
 
@@ -148,12 +109,6 @@ let rec existsb f = function
 | [] -> false
 | a :: l0 -> (||) (f a) (existsb f l0)
 
-(** val forallb : ('a1 -> bool) -> 'a1 list -> bool **)
-
-let rec forallb f = function
-| [] -> true
-| a :: l0 -> (&&) (f a) (forallb f l0)
-
 (** val filter : ('a1 -> bool) -> 'a1 list -> 'a1 list **)
 
 let rec filter f = function
@@ -169,20 +124,11 @@ let rec firstn n0 l =
              | [] -> []
              | a :: l0 -> a :: (firstn n1 l0))
 
-(** val skipn : nat -> 'a1 list -> 'a1 list **)
-
-let rec skipn n0 l =
-  match n0 with
-  | O -> l
-  | S n1 -> (match l with
-             | [] -> []
-             | _ :: l0 -> skipn n1 l0)
-
 (** val seq : nat -> nat -> nat list **)
 
 let rec seq start = function
 | O -> []
-| S len2 -> start :: (seq (S start) len2)
+| S len1 -> start :: (seq (S start) len1)
 
 (** val repeat : 'a1 -> nat -> 'a1 list **)
 
@@ -752,52 +698,6 @@ module Z =
   let sub m n0 =
     add m (opp n0)
 
-  (** val mul : z -> z -> z **)
-
-  let mul x y =
-    match x with
-    | Z0 -> Z0
-    | Zpos x' ->
-      (match y with
-       | Z0 -> Z0
-       | Zpos y' -> Zpos (Coq_Pos.mul x' y')
-       | Zneg y' -> Zneg (Coq_Pos.mul x' y'))
-    | Zneg x' ->
-      (match y with
-       | Z0 -> Z0
-       | Zpos y' -> Zneg (Coq_Pos.mul x' y')
-       | Zneg y' -> Zpos (Coq_Pos.mul x' y'))
-
-  (** val compare : z -> z -> comparison **)
-
-  let compare x y =
-    match x with
-    | Z0 -> (match y with
-             | Z0 -> Eq
-             | Zpos _ -> Lt
-             | Zneg _ -> Gt)
-    | Zpos x' -> (match y with
-                  | Zpos y' -> Coq_Pos.compare x' y'
-                  | _ -> Gt)
-    | Zneg x' ->
-      (match y with
-       | Zneg y' -> compOpp (Coq_Pos.compare x' y')
-       | _ -> Lt)
-
-  (** val leb : z -> z -> bool **)
-
-  let leb x y =
-    match compare x y with
-    | Gt -> false
-    | _ -> true
-
-  (** val ltb : z -> z -> bool **)
-
-  let ltb x y =
-    match compare x y with
-    | Lt -> true
-    | _ -> false
-
   (** val eqb : z -> z -> bool **)
 
   let eqb x y =
@@ -811,20 +711,6 @@ module Z =
     | Zneg p -> (match y with
                  | Zneg q -> Coq_Pos.eqb p q
                  | _ -> false)
-
-  (** val max : z -> z -> z **)
-
-  let max n0 m =
-    match compare n0 m with
-    | Lt -> m
-    | _ -> n0
-
-  (** val min : z -> z -> z **)
-
-  let min n0 m =
-    match compare n0 m with
-    | Gt -> m
-    | _ -> n0
 
   (** val to_nat : z -> nat **)
 
@@ -849,71 +735,7 @@ module Z =
   let of_N = function
   | N0 -> Z0
   | Npos p -> Zpos p
-
-  (** val pos_div_eucl : positive -> z -> z * z **)
-
-  let rec pos_div_eucl a b =
-    match a with
-    | XI a' ->
-      let (q, r) = pos_div_eucl a' b in
-      let r' = add (mul (Zpos (XO XH)) r) (Zpos XH) in
-      if ltb r' b
-      then ((mul (Zpos (XO XH)) q), r')
-      else ((add (mul (Zpos (XO XH)) q) (Zpos XH)), (sub r' b))
-    | XO a' ->
-      let (q, r) = pos_div_eucl a' b in
-      let r' = mul (Zpos (XO XH)) r in
-      if ltb r' b
-      then ((mul (Zpos (XO XH)) q), r')
-      else ((add (mul (Zpos (XO XH)) q) (Zpos XH)), (sub r' b))
-    | XH -> if leb (Zpos (XO XH)) b then (Z0, (Zpos XH)) else ((Zpos XH), Z0)
-
-  (** val div_eucl : z -> z -> z * z **)
-
-  let div_eucl a b =
-    match a with
-    | Z0 -> (Z0, Z0)
-    | Zpos a' ->
-      (match b with
-       | Z0 -> (Z0, a)
-       | Zpos _ -> pos_div_eucl a' b
-       | Zneg b' ->
-         let (q, r) = pos_div_eucl a' (Zpos b') in
-         (match r with
-          | Z0 -> ((opp q), Z0)
-          | _ -> ((opp (add q (Zpos XH))), (add b r))))
-    | Zneg a' ->
-      (match b with
-       | Z0 -> (Z0, a)
-       | Zpos _ ->
-         let (q, r) = pos_div_eucl a' b in
-         (match r with
-          | Z0 -> ((opp q), Z0)
-          | _ -> ((opp (add q (Zpos XH))), (sub b r)))
-       | Zneg b' -> let (q, r) = pos_div_eucl a' (Zpos b') in (q, (opp r)))
-
-  (** val div : z -> z -> z **)
-
-  let div a b =
-    let (q, _) = div_eucl a b in q
-
-  (** val modulo : z -> z -> z **)
-
-  let modulo a b =
-    let (_, r) = div_eucl a b in r
  end
-
-(** val pANIC : z **)
-
-let pANIC =
-  Zneg (XI (XO (XO (XO (XO (XO (XI (XO (XO (XI (XO (XO (XO (XO (XI (XO (XI
-    (XI (XI XH)))))))))))))))))))
-
-(** val nOFUEL : z **)
-
-let nOFUEL =
-  Zneg (XO (XI (XO (XO (XO (XO (XI (XO (XO (XI (XO (XO (XO (XO (XI (XO (XI
-    (XI (XI XH)))))))))))))))))))
 
 (** val bADCASE : z **)
 
@@ -937,27 +759,10 @@ let bz z0 =
 let put_list l =
   (Z.of_nat (length l)) :: l
 
-(** val get_list : z list -> z list * z list **)
-
-let get_list = function
-| [] -> ([], [])
-| n0 :: t -> ((firstn (Z.to_nat n0) t), (skipn (Z.to_nat n0) t))
-
 (** val of_Ns : n list -> z list **)
 
 let of_Ns l =
   map Z.of_N l
-
-(** val hd0 : z list -> z **)
-
-let hd0 = function
-| [] -> Z0
-| x :: _ -> x
-
-(** val nthz : z list -> nat -> z **)
-
-let nthz l i =
-  nth i l Z0
 
 (** val upd : n list -> nat -> n -> n list **)
 
@@ -1426,809 +1231,19 @@ let rec dec_ops fuel l =
 
 (** val entry : z -> z list -> z list **)
 
-let entry sub1 = function
+let entry sub0 = function
 | [] -> bADCASE :: []
 | k :: r ->
   (match dec_ops (length r) r with
    | Some ops ->
-     if Z.eqb sub1 Z0
+     if Z.eqb sub0 Z0
      then run (dec_kind k) (empty, empty) ops
-     else if Z.eqb sub1 (Zpos XH)
+     else if Z.eqb sub0 (Zpos XH)
           then s_run (dec_kind k) (s_empty, s_empty) ops
           else bADCASE :: []
    | None -> bADCASE :: [])
 
-(** val runeError : z **)
-
-let runeError =
-  Zpos (XI (XO (XI (XI (XI (XI (XI (XI (XI (XI (XI (XI (XI (XI (XI
-    XH)))))))))))))))
-
-(** val encode : z -> z list **)
-
-let encode r =
-  if Z.ltb r (Zpos (XO (XO (XO (XO (XO (XO (XO XH))))))))
-  then r :: []
-  else if Z.ltb r (Zpos (XO (XO (XO (XO (XO (XO (XO (XO (XO (XO (XO
-            XH))))))))))))
-       then (Z.add (Zpos (XO (XO (XO (XO (XO (XO (XI XH))))))))
-              (Z.div r (Zpos (XO (XO (XO (XO (XO (XO XH))))))))) :: (
-              (Z.add (Zpos (XO (XO (XO (XO (XO (XO (XO XH))))))))
-                (Z.modulo r (Zpos (XO (XO (XO (XO (XO (XO XH))))))))) :: [])
-       else if Z.ltb r (Zpos (XO (XO (XO (XO (XO (XO (XO (XO (XO (XO (XO (XO
-                 (XO (XO (XO (XO XH)))))))))))))))))
-            then (Z.add (Zpos (XO (XO (XO (XO (XO (XI (XI XH))))))))
-                   (Z.div r (Zpos (XO (XO (XO (XO (XO (XO (XO (XO (XO (XO (XO
-                     (XO XH))))))))))))))) :: ((Z.add (Zpos (XO (XO (XO (XO
-                                                 (XO (XO (XO XH))))))))
-                                                 (Z.modulo
-                                                   (Z.div r (Zpos (XO (XO (XO
-                                                     (XO (XO (XO XH))))))))
-                                                   (Zpos (XO (XO (XO (XO (XO
-                                                   (XO XH))))))))) :: (
-                   (Z.add (Zpos (XO (XO (XO (XO (XO (XO (XO XH))))))))
-                     (Z.modulo r (Zpos (XO (XO (XO (XO (XO (XO XH))))))))) :: []))
-            else (Z.add (Zpos (XO (XO (XO (XO (XI (XI (XI XH))))))))
-                   (Z.div r (Zpos (XO (XO (XO (XO (XO (XO (XO (XO (XO (XO (XO
-                     (XO (XO (XO (XO (XO (XO (XO XH))))))))))))))))))))) :: (
-                   (Z.add (Zpos (XO (XO (XO (XO (XO (XO (XO XH))))))))
-                     (Z.modulo
-                       (Z.div r (Zpos (XO (XO (XO (XO (XO (XO (XO (XO (XO (XO
-                         (XO (XO XH)))))))))))))) (Zpos (XO (XO (XO (XO (XO
-                       (XO XH))))))))) :: ((Z.add (Zpos (XO (XO (XO (XO (XO
-                                             (XO (XO XH))))))))
-                                             (Z.modulo
-                                               (Z.div r (Zpos (XO (XO (XO (XO
-                                                 (XO (XO XH)))))))) (Zpos (XO
-                                               (XO (XO (XO (XO (XO XH))))))))) :: (
-                   (Z.add (Zpos (XO (XO (XO (XO (XO (XO (XO XH))))))))
-                     (Z.modulo r (Zpos (XO (XO (XO (XO (XO (XO XH))))))))) :: [])))
-
-(** val cont : z -> bool **)
-
-let cont b =
-  (&&) (Z.leb (Zpos (XO (XO (XO (XO (XO (XO (XO XH)))))))) b)
-    (Z.leb b (Zpos (XI (XI (XI (XI (XI (XI (XO XH)))))))))
-
-(** val inr : z -> z -> z -> bool **)
-
-let inr lo hi b =
-  (&&) (Z.leb lo b) (Z.leb b hi)
-
-(** val decode : z list -> z * nat **)
-
-let decode = function
-| [] -> (runeError, O)
-| b0 :: t ->
-  if Z.ltb b0 (Zpos (XO (XO (XO (XO (XO (XO (XO XH))))))))
-  then (b0, (S O))
-  else if inr (Zpos (XO (XI (XO (XO (XO (XO (XI XH)))))))) (Zpos (XI (XI (XI
-            (XI (XI (XO (XI XH)))))))) b0
-       then (match t with
-             | [] -> (runeError, (S O))
-             | b1 :: _ ->
-               if cont b1
-               then ((Z.add
-                       (Z.mul
-                         (Z.modulo b0 (Zpos (XO (XO (XO (XO (XO XH)))))))
-                         (Zpos (XO (XO (XO (XO (XO (XO XH))))))))
-                       (Z.modulo b1 (Zpos (XO (XO (XO (XO (XO (XO XH))))))))),
-                      (S (S O)))
-               else (runeError, (S O)))
-       else if inr (Zpos (XO (XO (XO (XO (XO (XI (XI XH)))))))) (Zpos (XI (XI
-                 (XI (XI (XO (XI (XI XH)))))))) b0
-            then (match t with
-                  | [] -> (runeError, (S O))
-                  | b1 :: l ->
-                    (match l with
-                     | [] -> (runeError, (S O))
-                     | b2 :: _ ->
-                       let lo =
-                         if Z.eqb b0 (Zpos (XO (XO (XO (XO (XO (XI (XI
-                              XH))))))))
-                         then Zpos (XO (XO (XO (XO (XO (XI (XO XH)))))))
-                         else Zpos (XO (XO (XO (XO (XO (XO (XO XH)))))))
-                       in
-                       let hi =
-                         if Z.eqb b0 (Zpos (XI (XO (XI (XI (XO (XI (XI
-                              XH))))))))
-                         then Zpos (XI (XI (XI (XI (XI (XO (XO XH)))))))
-                         else Zpos (XI (XI (XI (XI (XI (XI (XO XH)))))))
-                       in
-                       if (&&) (inr lo hi b1) (cont b2)
-                       then ((Z.add
-                               (Z.add
-                                 (Z.mul
-                                   (Z.modulo b0 (Zpos (XO (XO (XO (XO XH))))))
-                                   (Zpos (XO (XO (XO (XO (XO (XO (XO (XO (XO
-                                   (XO (XO (XO XH))))))))))))))
-                                 (Z.mul
-                                   (Z.modulo b1 (Zpos (XO (XO (XO (XO (XO (XO
-                                     XH)))))))) (Zpos (XO (XO (XO (XO (XO (XO
-                                   XH)))))))))
-                               (Z.modulo b2 (Zpos (XO (XO (XO (XO (XO (XO
-                                 XH))))))))), (S (S (S O))))
-                       else (runeError, (S O))))
-            else if inr (Zpos (XO (XO (XO (XO (XI (XI (XI XH)))))))) (Zpos
-                      (XO (XO (XI (XO (XI (XI (XI XH)))))))) b0
-                 then (match t with
-                       | [] -> (runeError, (S O))
-                       | b1 :: l ->
-                         (match l with
-                          | [] -> (runeError, (S O))
-                          | b2 :: l0 ->
-                            (match l0 with
-                             | [] -> (runeError, (S O))
-                             | b3 :: _ ->
-                               let lo =
-                                 if Z.eqb b0 (Zpos (XO (XO (XO (XO (XI (XI
-                                      (XI XH))))))))
-                                 then Zpos (XO (XO (XO (XO (XI (XO (XO
-                                        XH)))))))
-                                 else Zpos (XO (XO (XO (XO (XO (XO (XO
-                                        XH)))))))
-                               in
-                               let hi =
-                                 if Z.eqb b0 (Zpos (XO (XO (XI (XO (XI (XI
-                                      (XI XH))))))))
-                                 then Zpos (XI (XI (XI (XI (XO (XO (XO
-                                        XH)))))))
-                                 else Zpos (XI (XI (XI (XI (XI (XI (XO
-                                        XH)))))))
-                               in
-                               if (&&) ((&&) (inr lo hi b1) (cont b2))
-                                    (cont b3)
-                               then ((Z.add
-                                       (Z.add
-                                         (Z.add
-                                           (Z.mul
-                                             (Z.modulo b0 (Zpos (XO (XO (XO
-                                               XH))))) (Zpos (XO (XO (XO (XO
-                                             (XO (XO (XO (XO (XO (XO (XO (XO
-                                             (XO (XO (XO (XO (XO (XO
-                                             XH))))))))))))))))))))
-                                           (Z.mul
-                                             (Z.modulo b1 (Zpos (XO (XO (XO
-                                               (XO (XO (XO XH)))))))) (Zpos
-                                             (XO (XO (XO (XO (XO (XO (XO (XO
-                                             (XO (XO (XO (XO XH)))))))))))))))
-                                         (Z.mul
-                                           (Z.modulo b2 (Zpos (XO (XO (XO (XO
-                                             (XO (XO XH)))))))) (Zpos (XO (XO
-                                           (XO (XO (XO (XO XH)))))))))
-                                       (Z.modulo b3 (Zpos (XO (XO (XO (XO (XO
-                                         (XO XH))))))))), (S (S (S (S O)))))
-                               else (runeError, (S O)))))
-                 else (runeError, (S O))
-
-(** val width : z list -> nat **)
-
-let width s =
-  snd (decode s)
-
-(** val encode_rune : z -> z list **)
-
-let encode_rune r =
-  if (||)
-       ((||) (Z.ltb r Z0)
-         (Z.ltb (Zpos (XI (XI (XI (XI (XI (XI (XI (XI (XI (XI (XI (XI (XI (XI
-           (XI (XI (XO (XO (XO (XO XH))))))))))))))))))))) r))
-       ((&&)
-         (Z.leb (Zpos (XO (XO (XO (XO (XO (XO (XO (XO (XO (XO (XO (XI (XI (XO
-           (XI XH)))))))))))))))) r)
-         (Z.leb r (Zpos (XI (XI (XI (XI (XI (XI (XI (XI (XI (XI (XI (XI (XI
-           (XO (XI XH))))))))))))))))))
-  then encode runeError
-  else encode r
-
-(** val decode_all_fuel : nat -> z list -> (z * nat) list **)
-
-let rec decode_all_fuel fuel s =
-  match fuel with
-  | O -> []
-  | S f ->
-    (match s with
-     | [] -> []
-     | _ :: _ ->
-       let (r, w) = decode s in
-       (r, w) :: (decode_all_fuel f (skipn (Nat.max w (S O)) s)))
-
-(** val decode_all : z list -> (z * nat) list **)
-
-let decode_all s =
-  decode_all_fuel (length s) s
-
-(** val runes : z list -> z list **)
-
-let runes s =
-  map fst (decode_all s)
-
-(** val valid_utf8 : z list -> bool **)
-
-let valid_utf8 s =
-  forallb (fun p ->
-    negb ((&&) (Z.eqb (fst p) runeError) (Nat.eqb (snd p) (S O))))
-    (decode_all s)
-
-type res =
-| Ret of z list
-| Panic
-| Stuck
-
-(** val two63 : z **)
-
-let two63 =
-  Zpos (XO (XO (XO (XO (XO (XO (XO (XO (XO (XO (XO (XO (XO (XO (XO (XO (XO
-    (XO (XO (XO (XO (XO (XO (XO (XO (XO (XO (XO (XO (XO (XO (XO (XO (XO (XO
-    (XO (XO (XO (XO (XO (XO (XO (XO (XO (XO (XO (XO (XO (XO (XO (XO (XO (XO
-    (XO (XO (XO (XO (XO (XO (XO (XO (XO (XO
-    XH)))))))))))))))))))))))))))))))))))))))))))))))))))))))))))))))
-
-(** val two64 : z **)
-
-let two64 =
-  Zpos (XO (XO (XO (XO (XO (XO (XO (XO (XO (XO (XO (XO (XO (XO (XO (XO (XO
-    (XO (XO (XO (XO (XO (XO (XO (XO (XO (XO (XO (XO (XO (XO (XO (XO (XO (XO
-    (XO (XO (XO (XO (XO (XO (XO (XO (XO (XO (XO (XO (XO (XO (XO (XO (XO (XO
-    (XO (XO (XO (XO (XO (XO (XO (XO (XO (XO (XO
-    XH))))))))))))))))))))))))))))))))))))))))))))))))))))))))))))))))
-
-(** val maxint : z **)
-
-let maxint =
-  Zpos (XI (XI (XI (XI (XI (XI (XI (XI (XI (XI (XI (XI (XI (XI (XI (XI (XI
-    (XI (XI (XI (XI (XI (XI (XI (XI (XI (XI (XI (XI (XI (XI (XI (XI (XI (XI
-    (XI (XI (XI (XI (XI (XI (XI (XI (XI (XI (XI (XI (XI (XI (XI (XI (XI (XI
-    (XI (XI (XI (XI (XI (XI (XI (XI (XI
-    XH))))))))))))))))))))))))))))))))))))))))))))))))))))))))))))))
-
-(** val wrap64 : z -> z **)
-
-let wrap64 z0 =
-  Z.sub (Z.modulo (Z.add z0 two63) two64) two63
-
-(** val alloc_limit : z **)
-
-let alloc_limit =
-  Zpos (XO (XO (XO (XO (XO (XO (XO (XO (XO (XO (XO (XO (XO (XO (XO (XO (XO
-    (XO (XO (XO (XO (XO (XO (XO (XO (XO (XO (XO (XO (XO (XO (XO (XO (XO (XO
-    (XO (XO (XO (XO (XO (XO (XO (XO (XO (XO (XO (XO (XO
-    XH))))))))))))))))))))))))))))))))))))))))))))))))
-
-(** val zlen : z list -> z **)
-
-let zlen s =
-  Z.of_nat (length s)
-
-(** val sl : z list -> nat -> nat -> res **)
-
-let sl s a b =
-  if (&&) (Nat.leb a b) (Nat.leb b (length s))
-  then Ret (firstn (sub b a) (skipn a s))
-  else Panic
-
-(** val bind : res -> (z list -> res) -> res **)
-
-let bind r f =
-  match r with
-  | Ret b -> f b
-  | x -> x
-
-(** val adv : z list -> nat **)
-
-let adv r = match r with
-| [] -> O
-| b :: _ ->
-  if Z.ltb b (Zpos (XO (XO (XO (XO (XO (XO (XO XH))))))))
-  then S O
-  else width r
-
-(** val chunks_fuel : nat -> z list -> z list list **)
-
-let rec chunks_fuel fuel r =
-  match fuel with
-  | O -> []
-  | S f ->
-    (match r with
-     | [] -> []
-     | _ :: _ -> (firstn (adv r) r) :: (chunks_fuel f (skipn (adv r) r)))
-
-(** val chunks : z list -> z list list **)
-
-let chunks r =
-  chunks_fuel (length r) r
-
-(** val clampn : z -> 'a1 list -> nat **)
-
-let clampn z0 l =
-  Z.to_nat (Z.min (Z.max z0 Z0) (Z.of_nat (length l)))
-
-(** val firstz : z -> 'a1 list -> 'a1 list **)
-
-let firstz z0 l =
-  firstn (clampn z0 l) l
-
-(** val skipz : z -> 'a1 list -> 'a1 list **)
-
-let skipz z0 l =
-  skipn (clampn z0 l) l
-
-(** val count_go : nat -> z list -> z -> z **)
-
-let rec count_go fuel r n0 =
-  match fuel with
-  | O -> n0
-  | S f ->
-    (match r with
-     | [] -> n0
-     | _ :: _ -> count_go f (skipn (adv r) r) (Z.add n0 (Zpos XH)))
-
-(** val rune_count_z : z list -> z **)
-
-let rune_count_z s =
-  count_go (length s) s Z0
-
-(** val len0 : z list -> z **)
-
-let len0 =
-  rune_count_z
-
-(** val sub_go : z list -> z -> z -> nat -> nat -> z -> z -> res **)
-
-let rec sub_go s start length_ fuel i count begin0 =
-  match fuel with
-  | O -> Stuck
-  | S f ->
-    if Nat.ltb i (length s)
-    then let next0 = fun b ->
-           sub_go s start length_ f (add i (adv (skipn i s)))
-             (Z.add count (Zpos XH)) b
-         in
-         if Z.eqb count start
-         then if Z.eqb length_ (Zneg XH)
-              then sl s i (length s)
-              else next0 (Z.of_nat i)
-         else if (&&) (Z.leb Z0 begin0)
-                   (Z.eqb (wrap64 (Z.add start length_)) count)
-              then sl s (Z.to_nat begin0) i
-              else next0 begin0
-    else if Z.ltb begin0 Z0 then Ret [] else sl s (Z.to_nat begin0) (length s)
-
-(** val sub0 : z list -> z -> z -> res **)
-
-let sub0 s start length_ =
-  if (||) ((||) (Z.ltb start Z0) (Z.ltb length_ (Zneg XH)))
-       (match s with
-        | [] -> true
-        | _ :: _ -> false)
-  then Ret s
-  else if Z.eqb length_ Z0
-       then Ret []
-       else sub_go s start length_ (S (length s)) O Z0 (Zneg XH)
-
-(** val spec_sub : z list -> z -> z -> z list **)
-
-let spec_sub s start length_ =
-  if Z.eqb length_ Z0
-  then []
-  else if Z.eqb length_ (Zneg XH)
-       then concat (skipz start (chunks s))
-       else concat (firstz length_ (skipz start (chunks s)))
-
-(** val repeat_str : z list -> z -> res **)
-
-let repeat_str m count =
-  if Z.eqb count (Zpos XH)
-  then Ret m
-  else if Z.ltb maxint (Z.mul (zlen m) count)
-       then Panic
-       else (match m with
-             | [] -> Ret []
-             | _ :: _ ->
-               if Z.ltb alloc_limit (Z.mul (zlen m) count)
-               then Panic
-               else Ret (concat (repeat m (Z.to_nat count))))
-
-(** val idx_go :
-    z list -> z -> z -> nat -> nat -> z -> nat -> nat -> (nat * nat) option **)
-
-let rec idx_go s start end_ fuel i count si ei =
-  match fuel with
-  | O -> None
-  | S f ->
-    if Nat.ltb i (length s)
-    then let si' = if Z.eqb count start then i else si in
-         let ei' =
-           if Z.eqb count start
-           then ei
-           else if Z.eqb count end_ then i else ei
-         in
-         idx_go s start end_ f (add i (adv (skipn i s)))
-           (Z.add count (Zpos XH)) si' ei'
-    else Some (si, ei)
-
-(** val mask1 : z list -> z list -> z -> z -> res **)
-
-let mask1 str msk start end_ =
-  let l = rune_count_z str in
-  if (||) (Z.ltb l start) (Z.ltb l end_)
-  then Ret str
-  else let ml = wrap64 (Z.sub (wrap64 (Z.sub l start)) end_) in
-       if Z.leb ml Z0
-       then Ret str
-       else bind
-              (if Z.eqb (rune_count_z msk) (Zpos XH)
-               then repeat_str msk ml
-               else Ret msk) (fun msk' ->
-              if Z.eqb ml l
-              then Ret msk'
-              else let e = wrap64 (Z.sub l end_) in
-                   (match idx_go str start e (S (length str)) O Z0 O O with
-                    | Some p ->
-                      let (si, ei) = p in
-                      let ei' = if Nat.eqb ei O then length str else ei in
-                      bind (sl str O si) (fun a ->
-                        bind (sl str ei' (length str)) (fun b -> Ret
-                          (app a (app msk' b))))
-                    | None -> Stuck))
-
-(** val spec_mask : z list -> z list -> z -> z -> z list **)
-
-let spec_mask str msk start end_ =
-  let cs = chunks str in
-  let l = Z.of_nat (length cs) in
-  if Z.leb l (Z.add start end_)
-  then str
-  else let ml = Z.sub (Z.sub l start) end_ in
-       let msk' =
-         if Nat.eqb (length (chunks msk)) (S O)
-         then concat (repeat msk (Z.to_nat ml))
-         else msk
-       in
-       app (concat (firstz start cs))
-         (app msk' (concat (skipz (Z.sub l end_) cs)))
-
-(** val disp : z -> z **)
-
-let disp v =
-  if Z.ltb v (Zpos (XO (XO (XO (XO (XO (XO (XO XH))))))))
-  then Zpos XH
-  else Zpos (XO XH)
-
-(** val sbd_go : z list -> z -> nat -> nat -> z -> res **)
-
-let rec sbd_go s limit fuel i dpl =
-  match fuel with
-  | O -> Stuck
-  | S f ->
-    if Nat.ltb i (length s)
-    then let (v, w) = decode (skipn i s) in
-         let dpl' = Z.add dpl (disp v) in
-         if Z.ltb limit dpl'
-         then sl s O i
-         else sbd_go s limit f (add i w) dpl'
-    else Ret s
-
-(** val sub_by_display : z list -> z -> res **)
-
-let sub_by_display s limit =
-  if Z.leb (zlen s) limit then Ret s else sbd_go s limit (S (length s)) O Z0
-
-(** val cdisp : z list -> z **)
-
-let cdisp = function
-| [] -> Zpos (XO XH)
-| b :: l ->
-  (match l with
-   | [] ->
-     if Z.ltb b (Zpos (XO (XO (XO (XO (XO (XO (XO XH))))))))
-     then Zpos XH
-     else Zpos (XO XH)
-   | _ :: _ -> Zpos (XO XH))
-
-(** val fit : z list list -> z -> z list list **)
-
-let rec fit cs limit =
-  match cs with
-  | [] -> []
-  | c :: t ->
-    if Z.leb (cdisp c) limit then c :: (fit t (Z.sub limit (cdisp c))) else []
-
-(** val spec_sub_by_display : z list -> z -> z list **)
-
-let spec_sub_by_display s limit =
-  concat (fit (chunks s) limit)
-
-(** val rev_str : z list -> z list **)
-
-let rev_str s =
-  concat (map encode_rune (rev (runes s)))
-
-(** val spec_rev : z list -> z list **)
-
-let spec_rev s =
-  concat (rev (chunks s))
-
-(** val rr_go :
-    (z -> bool) -> z list -> nat -> nat -> bool -> z list -> res **)
-
-let rec rr_go p s fuel i grown buf =
-  match fuel with
-  | O -> Stuck
-  | S f ->
-    if Nat.ltb i (length s)
-    then let (v, w) = decode (skipn i s) in
-         if grown
-         then rr_go p s f (add i w) true
-                (if p v then buf else app buf (encode_rune v))
-         else if p v
-              then bind (sl s O i) (fun pre ->
-                     rr_go p s f (add i w) true (app buf pre))
-              else rr_go p s f (add i w) false buf
-    else if grown then Ret buf else Ret s
-
-(** val remove_runes : (z -> bool) -> z list -> res **)
-
-let remove_runes p s =
-  rr_go p s (S (length s)) O false []
-
-(** val crune : z list -> z **)
-
-let crune c =
-  fst (decode c)
-
-(** val spec_remove_runes : (z -> bool) -> z list -> z list **)
-
-let spec_remove_runes p s =
-  concat (filter (fun c -> negb (p (crune c))) (chunks s))
-
-(** val uc_first : z list -> z list **)
-
-let uc_first s = match s with
-| [] -> []
-| b :: t ->
-  if (&&) (Z.leb (Zpos (XI (XO (XO (XO (XO (XI XH))))))) b)
-       (Z.leb b (Zpos (XO (XI (XO (XI (XI (XI XH))))))))
-  then (Z.sub b (Zpos (XO (XO (XO (XO (XO XH))))))) :: t
-  else s
-
-(** val lc_first : z list -> z list **)
-
-let lc_first s = match s with
-| [] -> []
-| b :: t ->
-  if (&&) (Z.leb (Zpos (XI (XO (XO (XO (XO (XO XH))))))) b)
-       (Z.leb b (Zpos (XO (XI (XO (XI (XI (XO XH))))))))
-  then (Z.add b (Zpos (XO (XO (XO (XO (XO XH))))))) :: t
-  else s
-
-(** val wr : z list -> z list -> nat -> nat -> res **)
-
-let wr buf s a b =
-  if Nat.ltb a b then bind (sl s a b) (fun x -> Ret (app buf x)) else Ret buf
-
-(** val s2c_go : z list -> nat -> nat -> nat -> bool -> z list -> res **)
-
-let rec s2c_go s fuel i start up buf =
-  match fuel with
-  | O -> Stuck
-  | S f ->
-    if Nat.ltb i (length s)
-    then let b = nth i s Z0 in
-         if Z.ltb b (Zpos (XO (XO (XO (XO (XO (XO (XO XH))))))))
-         then if up
-              then if (&&) (Z.leb (Zpos (XI (XO (XO (XO (XO (XI XH))))))) b)
-                        (Z.leb b (Zpos (XO (XI (XO (XI (XI (XI XH))))))))
-                   then bind (wr buf s start i) (fun buf' ->
-                          s2c_go s f (add i (S O)) (add i (S O)) false
-                            (app buf'
-                              ((Z.sub b (Zpos (XO (XO (XO (XO (XO XH))))))) :: [])))
-                   else s2c_go s f (add i (S O)) start false buf
-              else if (&&) (Nat.ltb O i)
-                        (Z.eqb b (Zpos (XI (XI (XI (XI (XI (XO XH))))))))
-                   then bind (wr buf s start i) (fun buf' ->
-                          s2c_go s f (add i (S O)) (add i (S O)) true buf')
-                   else s2c_go s f (add i (S O)) start false buf
-         else s2c_go s f (add i (width (skipn i s))) start false buf
-    else (match buf with
-          | [] -> Ret s
-          | _ :: _ -> wr buf s start (length s))
-
-(** val snake_to_camel : z list -> bool -> res **)
-
-let snake_to_camel s up =
-  s2c_go s (S (length s)) O O up []
-
-(** val c2s_go : z list -> nat -> nat -> nat -> z list -> res **)
-
-let rec c2s_go s fuel i start buf =
-  match fuel with
-  | O -> Stuck
-  | S f ->
-    if Nat.ltb i (length s)
-    then let b = nth i s Z0 in
-         if Z.ltb b (Zpos (XO (XO (XO (XO (XO (XO (XO XH))))))))
-         then if (&&) (Z.leb (Zpos (XI (XO (XO (XO (XO (XO XH))))))) b)
-                   (Z.leb b (Zpos (XO (XI (XO (XI (XI (XO XH))))))))
-              then bind (wr buf s start i) (fun buf' ->
-                     c2s_go s f (add i (S O)) (add i (S O))
-                       (app
-                         (if Nat.ltb O i
-                          then app buf' ((Zpos (XI (XI (XI (XI (XI (XO
-                                 XH))))))) :: [])
-                          else buf')
-                         ((Z.add b (Zpos (XO (XO (XO (XO (XO XH))))))) :: [])))
-              else c2s_go s f (add i (S O)) start buf
-         else c2s_go s f (add i (width (skipn i s))) start buf
-    else (match buf with
-          | [] -> Ret s
-          | _ :: _ -> wr buf s start (length s))
-
-(** val camel_to_snake : z list -> res **)
-
-let camel_to_snake s =
-  c2s_go s (S (length s)) O O []
-
-(** val lower : z -> bool **)
-
-let lower b =
-  (&&) (Z.leb (Zpos (XI (XO (XO (XO (XO (XI XH))))))) b)
-    (Z.leb b (Zpos (XO (XI (XO (XI (XI (XI XH))))))))
-
-(** val digit : z -> bool **)
-
-let digit b =
-  (&&) (Z.leb (Zpos (XO (XO (XO (XO (XI XH)))))) b)
-    (Z.leb b (Zpos (XI (XO (XO (XI (XI XH)))))))
-
-(** val ident_go : z list -> bool -> bool **)
-
-let rec ident_go s inword =
-  match s with
-  | [] -> inword
-  | b :: t ->
-    if inword
-    then if (||) (lower b) (digit b)
-         then ident_go t true
-         else if Z.eqb b (Zpos (XI (XI (XI (XI (XI (XO XH)))))))
-              then ident_go t false
-              else false
-    else if lower b then ident_go t true else false
-
-(** val ident : z list -> bool **)
-
-let ident s =
-  ident_go s false
-
-(** val get_int : z list -> z * z list **)
-
-let get_int = function
-| [] -> (Z0, [])
-| hi :: l0 ->
-  (match l0 with
-   | [] -> (Z0, [])
-   | lo :: r ->
-     ((Z.add
-        (Z.mul hi (Zpos (XO (XO (XO (XO (XO (XO (XO (XO (XO (XO (XO (XO (XO
-          (XO (XO (XO (XO (XO (XO (XO (XO (XO (XO (XO (XO (XO (XO (XO (XO (XO
-          (XO (XO XH)))))))))))))))))))))))))))))))))) lo), r))
-
-(** val enc_res : res -> z list **)
-
-let enc_res = function
-| Ret b -> b
-| Panic -> pANIC :: []
-| Stuck -> nOFUEL :: []
-
-(** val pred : z -> z -> z -> bool **)
-
-let pred kind0 a r =
-  if Z.eqb kind0 Z0
-  then false
-  else if Z.eqb kind0 (Zpos XH)
-       then true
-       else if Z.eqb kind0 (Zpos (XO XH))
-            then Z.eqb r a
-            else if Z.eqb kind0 (Zpos (XI XH))
-                 then Z.ltb r a
-                 else if Z.eqb kind0 (Zpos (XO (XO XH)))
-                      then Z.eqb (Z.modulo r (Zpos (XO XH)))
-                             (Z.modulo a (Zpos (XO XH)))
-                      else if Z.eqb kind0 (Zpos (XI (XO XH)))
-                           then Z.eqb (Z.modulo r (Zpos (XI XH)))
-                                  (Z.modulo a (Zpos (XI XH)))
-                           else Z.leb a r
-
-(** val roundtrip : z list -> bool -> res **)
-
-let roundtrip s up =
-  bind (snake_to_camel s up) camel_to_snake
-
-(** val run_model : z -> z list -> z list **)
-
-let run_model op0 r =
-  let (s, r1) = get_list r in
-  if Z.eqb op0 Z0
-  then let (m, r2) = get_list r1 in
-       let (st, r3) = get_int r2 in
-       let (en, _) = get_int r3 in enc_res (mask1 s m st en)
-  else if Z.eqb op0 (Zpos XH)
-       then let (st, r2) = get_int r1 in
-            let (ln, _) = get_int r2 in enc_res (sub0 s st ln)
-       else if Z.eqb op0 (Zpos (XO XH))
-            then let (lim, _) = get_int r1 in enc_res (sub_by_display s lim)
-            else if Z.eqb op0 (Zpos (XI XH))
-                 then rev_str s
-                 else if Z.eqb op0 (Zpos (XO (XO XH)))
-                      then (len0 s) :: []
-                      else if Z.eqb op0 (Zpos (XI (XO XH)))
-                           then enc_res
-                                  (remove_runes
-                                    (pred (nthz r1 O) (nthz r1 (S O))) s)
-                           else if Z.eqb op0 (Zpos (XO (XI XH)))
-                                then enc_res (snake_to_camel s (bz (hd0 r1)))
-                                else if Z.eqb op0 (Zpos (XI (XI XH)))
-                                     then enc_res (camel_to_snake s)
-                                     else if Z.eqb op0 (Zpos (XO (XO (XO
-                                               XH))))
-                                          then uc_first s
-                                          else if Z.eqb op0 (Zpos (XI (XO (XO
-                                                    XH))))
-                                               then lc_first s
-                                               else if Z.eqb op0 (Zpos (XO
-                                                         (XI (XO XH))))
-                                                    then enc_res
-                                                           (roundtrip s
-                                                             (bz (hd0 r1)))
-                                                    else bADCASE :: []
-
-(** val run_spec : z -> z list -> z list **)
-
-let run_spec op0 r =
-  let (s, r1) = get_list r in
-  if Z.eqb op0 Z0
-  then let (m, r2) = get_list r1 in
-       let (st, r3) = get_int r2 in
-       let (en, _) = get_int r3 in
-       if (&&) (Z.leb Z0 st) (Z.leb Z0 en)
-       then spec_mask s m st en
-       else run_model op0 r
-  else if Z.eqb op0 (Zpos XH)
-       then let (st, r2) = get_int r1 in
-            let (ln, _) = get_int r2 in
-            if (&&) (Z.leb Z0 st) (Z.leb (Zneg XH) ln)
-            then spec_sub s st ln
-            else run_model op0 r
-       else if Z.eqb op0 (Zpos (XO XH))
-            then let (lim, _) = get_int r1 in
-                 if (&&) (Z.leb Z0 lim) (valid_utf8 s)
-                 then spec_sub_by_display s lim
-                 else run_model op0 r
-            else if Z.eqb op0 (Zpos (XI XH))
-                 then if valid_utf8 s then spec_rev s else run_model op0 r
-                 else if Z.eqb op0 (Zpos (XO (XO XH)))
-                      then (Z.of_nat (length (chunks s))) :: []
-                      else if Z.eqb op0 (Zpos (XI (XO XH)))
-                           then if valid_utf8 s
-                                then spec_remove_runes
-                                       (pred (nthz r1 O) (nthz r1 (S O))) s
-                                else run_model op0 r
-                           else if Z.eqb op0 (Zpos (XO (XI (XO XH))))
-                                then if ident s then s else run_model op0 r
-                                else run_model op0 r
-
-(** val entry0 : z -> z list -> z list **)
-
-let entry0 sub1 = function
-| [] -> bADCASE :: []
-| op0 :: r ->
-  if Z.eqb sub1 Z0
-  then run_model op0 r
-  else if Z.eqb sub1 (Zpos XH) then run_spec op0 r else bADCASE :: []
-
 (** val dispatch : z -> z -> z list -> z list **)
 
-let dispatch p sub1 args =
-  if Z.eqb p (Zpos (XO (XO (XO (XO XH)))))
-  then entry sub1 args
-  else if Z.eqb p (Zpos (XI (XO (XO (XO XH))))) then entry0 sub1 args else []
+let dispatch p sub0 args =
+  if Z.eqb p (Zpos (XO (XO (XO (XO XH))))) then entry sub0 args else []
